@@ -1,1 +1,354 @@
-pub fn x(){ let _ = concordium_wasm::machine::verif::steps(); }
+//! C01: compiled Wasm execution conforms to WebAssembly semantics.
+//! Differential: generated valid modules run on the real engine (compile + register machine)
+//! under {V0,V1} x {no metering, cost V0, cost V1} against the reference interpreter.
+use vcore::{gen as g, vensure, CheckResult, Ctx, Property, Target, Unstructured, Violation};
+use wasmgen::ast::*;
+use wasmgen::gen::{gen_args, gen_module, GenConfig};
+use wasmgen::hostmodel::std_imports;
+use wasmgen::interp::{prepare, Instance, Outcome, Trap};
+use wasmgen::util::{add_global_digests, ModelHost};
+use wasmrun::{instantiate, to_values, Metering, RealOutcome, RecHost, VCfg};
+
+pub struct Case {
+    pub vcfg:    VCfg,
+    pub module:  Module,
+    pub func:    usize,
+    pub args:    Vec<u64>,
+}
+
+pub fn decode_case(u: &mut Unstructured, max_body: usize) -> Case {
+    let vcfg = if g::boolean(u) { VCfg::V1 } else { VCfg::V0 };
+    let cfg = GenConfig {
+        sign_ext: vcfg == VCfg::V1,
+        globals_in_offsets: vcfg == VCfg::V0,
+        imports: if g::ratio(u, 3, 4) { std_imports() } else { Vec::new() },
+        max_body,
+        ..GenConfig::default()
+    };
+    let gen = gen_module(u, &cfg);
+    let mut module = gen.module;
+    let nf = module.funcs.len();
+    add_global_digests(&mut module);
+    let func = g::idx(u, nf);
+    let ty = module.types[module.funcs[func].ty as usize].clone();
+    let args = gen_args(u, &ty);
+    Case { vcfg, module, func, args }
+}
+
+fn uses_sign_ext(m: &Module) -> bool {
+    m.funcs.iter().any(|f| f.body.iter().any(|o| matches!(o, Op::Num(n) if n.is_sign_extension())))
+}
+
+fn uses_global_offsets(m: &Module) -> bool {
+    m.datas.iter().any(|d| matches!(d.offset, ConstExpr::GlobalGet(_)))
+        || m.elems.iter().any(|d| matches!(d.offset, ConstExpr::GlobalGet(_)))
+}
+
+struct RefRun {
+    outcome: Outcome,
+    memory:  Vec<u8>,
+    log:     Vec<(String, Vec<u64>)>,
+    stats:   wasmgen::interp::Stats,
+}
+
+fn ref_run(m: &Module, prep: &wasmgen::interp::Prepared, fidx: u32, args: &[u64]) -> RefRun {
+    let mut inst = Instance::new(m, prep, None);
+    inst.fuel = 200_000;
+    let mut host = ModelHost::new(m);
+    let outcome = inst.run(fidx, args, &mut host);
+    RefRun { outcome, memory: std::mem::take(&mut inst.memory), log: host.model.log, stats: inst.stats }
+}
+
+fn describe(c: &Case) -> String {
+    format!(
+        "config {:?}, export f{} (and digest wrapper g{}), args {:?}\n{}",
+        c.vcfg,
+        c.func,
+        c.func,
+        c.args,
+        pretty(&c.module)
+    )
+}
+
+fn compare(
+    what: &str,
+    cfg: (VCfg, Metering),
+    r: &RefRun,
+    real: &RealOutcome,
+    real_log: &[(String, Vec<u64>)],
+    compare_memory: bool,
+) -> CheckResult {
+    match (&r.outcome, real) {
+        (Outcome::Done(v), RealOutcome::Done { result, memory }) => {
+            vensure!(
+                v == result,
+                "result",
+                "{what} under {cfg:?}: reference result {:?}, engine result {:?}",
+                v,
+                result
+            );
+            if compare_memory {
+                vensure!(
+                    r.memory.len() == memory.len(),
+                    "memory-size",
+                    "{what} under {cfg:?}: reference memory {} bytes, engine {} bytes",
+                    r.memory.len(),
+                    memory.len()
+                );
+                if r.memory != *memory {
+                    let i = r.memory.iter().zip(memory.iter()).position(|(a, b)| a != b).unwrap();
+                    return Err(Violation::new(
+                        "memory",
+                        format!(
+                            "{what} under {cfg:?}: final memory differs at byte {i}: reference {:#x}, engine {:#x}",
+                            r.memory[i], memory[i]
+                        ),
+                    ));
+                }
+            }
+        }
+        (Outcome::Trap(t), RealOutcome::Trap(_)) => {
+            let _ = t;
+        }
+        (o, real) => {
+            let sig = match (o, real) {
+                (Outcome::Trap(t), _) => format!("trap-mismatch:ref-{:?}:engine-{}", t, real.kind()),
+                (Outcome::Done(_), _) => format!("trap-mismatch:ref-done:engine-{}", real.kind()),
+            };
+            let detail = match real {
+                RealOutcome::Trap(s) => format!("engine trapped with '{s}'"),
+                other => format!("engine outcome {}", other.kind()),
+            };
+            return Err(Violation::new(
+                "trap",
+                format!("{what} under {cfg:?}: reference outcome {:?} (trap at {:?}), {detail}", o, r.stats.trap_at),
+            )
+            .with_signature(sig));
+        }
+    }
+    vensure!(
+        r.log == real_log,
+        "host-calls",
+        "{what} under {cfg:?}: host call sequences differ: reference {:?} engine {:?}",
+        r.log,
+        real_log
+    );
+    Ok(())
+}
+
+fn check_case(c: &Case, ctx: &mut Ctx) -> CheckResult {
+    ctx.describe(|| describe(c));
+    let m = &c.module;
+    let prep = match prepare(m) {
+        Some(p) => p,
+        None => return Err(Violation::new("harness", "generator produced an ill-nested body")),
+    };
+    let nimports = m.imports.len() as u32;
+    let nf = (m.funcs.len() / 2) as u32;
+    let f_idx = nimports + c.func as u32;
+    let g_idx = nimports + nf + c.func as u32;
+    let fty = m.types[m.funcs[c.func].ty as usize].clone();
+    let rf = ref_run(m, &prep, f_idx, &c.args);
+    if rf.outcome == Outcome::Trap(Trap::Fuel) {
+        ctx.class("ref-out-of-fuel");
+        return Ok(());
+    }
+    let rg = ref_run(m, &prep, g_idx, &c.args);
+
+    // classification
+    let s = &rf.stats;
+    match &rf.outcome {
+        Outcome::Done(_) => ctx.class("done"),
+        Outcome::Trap(t) => ctx.class(&format!("trap-{:?}", t)),
+    }
+    let mut nontrivial = false;
+    if s.taken_brif > 0 && s.nottaken_brif > 0 {
+        ctx.class("brif-both");
+        nontrivial = true;
+    }
+    if s.carried_branches > 0 {
+        ctx.class("carried-branch");
+        nontrivial = true;
+    }
+    if s.carried_brif_nottaken > 0 {
+        ctx.class("carried-brif-not-taken");
+    }
+    if s.calls > 0 {
+        ctx.class("call");
+        nontrivial = true;
+    }
+    if s.host_calls > 0 {
+        ctx.class("host-call");
+    }
+    if s.loop_backedges > 0 {
+        ctx.class("loop-backedge");
+        nontrivial = true;
+    }
+    if s.br_tables > 0 {
+        ctx.class("br-table");
+    }
+    if s.local_writes > 0 {
+        ctx.class("local-write");
+    }
+    if s.mem_grows > 0 {
+        ctx.class("memory-grow");
+    }
+    if m.funcs.iter().any(|f| has_dead_code(&f.body)) {
+        ctx.class("has-dead-code");
+    }
+    if nontrivial {
+        ctx.nontrivial(&(c.module.clone(), c.func, c.args.clone(), c.vcfg));
+    }
+    ctx.sample(|| {
+        format!(
+            "{:?} f{} args {:?}: {} instrs, ref outcome {:?}, steps {}, brif {}/{} carried {} calls {} loops {}",
+            c.vcfg,
+            c.func,
+            c.args,
+            m.instruction_count(),
+            rf.outcome,
+            s.steps,
+            s.taken_brif,
+            s.nottaken_brif,
+            s.carried_branches,
+            s.calls,
+            s.loop_backedges
+        )
+    });
+
+    let bytes = wasmgen::encode::encode(m);
+    let mut vcfgs = vec![c.vcfg];
+    if !uses_sign_ext(m) && !uses_global_offsets(m) {
+        vcfgs.push(if c.vcfg == VCfg::V0 { VCfg::V1 } else { VCfg::V0 });
+        ctx.class("both-validation-configs");
+    }
+    let args = to_values(&fty.params, &c.args);
+    for v in vcfgs {
+        for metering in [Metering::None, Metering::V0, Metering::V1] {
+            let art = match instantiate(&bytes, v, metering) {
+                Ok(a) => a,
+                Err(e) => {
+                    return Err(Violation::new(
+                        "accepts-valid",
+                        format!("valid-by-construction module rejected under {:?}/{:?}: {:#}", v, metering, e),
+                    ))
+                }
+            };
+            let fname = format!("f{}", c.func);
+            let mut host = RecHost::new(u64::MAX / 2);
+            let (out, _) = wasmrun::run(&art, &fname, &args, &mut host, 100_000_000);
+            compare(&fname, (v, metering), &rf, &out, &host.model.log, true)?;
+            if rg.outcome != Outcome::Trap(Trap::Fuel) {
+                let gname = format!("g{}", c.func);
+                let mut host = RecHost::new(u64::MAX / 2);
+                let (out, _) = wasmrun::run(&art, &gname, &args, &mut host, 100_000_000);
+                compare(&gname, (v, metering), &rg, &out, &host.model.log, false)
+                    .map_err(|mut e| {
+                        e.oracle = format!("globals/{}", e.oracle);
+                        e
+                    })?;
+            }
+        }
+    }
+    Ok(())
+}
+
+fn has_dead_code(body: &[Op]) -> bool {
+    body.windows(2).any(|w| {
+        matches!(w[0], Op::Br(_) | Op::Return | Op::Unreachable | Op::BrTable(..)) && !matches!(w[1], Op::End | Op::Else)
+    })
+}
+
+fn t_diff(data: &[u8], ctx: &mut Ctx) -> CheckResult {
+    let mut u = Unstructured::new(data);
+    let c = decode_case(&mut u, 150);
+    check_case(&c, ctx)
+}
+
+fn t_diff_small(data: &[u8], ctx: &mut Ctx) -> CheckResult {
+    let mut u = Unstructured::new(data);
+    let c = decode_case(&mut u, 30);
+    check_case(&c, ctx)
+}
+
+/// Hand-written programs around defects found earlier (F1..F6 in DESIGN.md), run with generated
+/// arguments through the same differential oracle.
+pub fn regress_programs() -> Vec<(&'static str, FuncType, Vec<(u32, ValType)>, Vec<Op>)> {
+    use BlockType as B;
+    use Op::*;
+    use ValType::*;
+    let t = |p: Vec<ValType>, r: Option<ValType>| FuncType { params: p, result: r };
+    vec![
+        ("f1-brif-function-label", t(vec![I32, I32], Some(I32)), vec![], vec![
+            I32Const(5), LocalGet(1), BrIf(0), Drop, LocalGet(0), End,
+        ]),
+        ("f2-brif-block-result-reused", t(vec![I32, I32], Some(I32)), vec![], vec![
+            Block(B::Val(I32)), I32Const(10), LocalGet(0), BrIf(0), I32Const(3), LocalGet(1), BrIf(0), Num(NumOp::I32Sub), End, End,
+        ]),
+        ("f2b-brif-drop-reuse", t(vec![I32, I32], Some(I32)), vec![], vec![
+            Block(B::Val(I32)), I32Const(10), LocalGet(0), BrIf(0), Drop, I32Const(4), I32Const(16), Num(NumOp::I32Add),
+            I32Const(7), LocalGet(1), BrIf(0), Drop, End, End,
+        ]),
+        ("f3-rem-s-32", t(vec![I32, I32], Some(I32)), vec![], vec![LocalGet(0), LocalGet(1), Num(NumOp::I32RemS), End]),
+        ("f3-rem-s-64", t(vec![I64, I64], Some(I64)), vec![], vec![LocalGet(0), LocalGet(1), Num(NumOp::I64RemS), End]),
+        ("f3-div-s-32", t(vec![I32, I32], Some(I32)), vec![], vec![LocalGet(0), LocalGet(1), Num(NumOp::I32DivS), End]),
+        ("f3-div-s-64", t(vec![I64, I64], Some(I64)), vec![], vec![LocalGet(0), LocalGet(1), Num(NumOp::I64DivS), End]),
+        ("f5-local-on-stack-set-in-loop", t(vec![I32, I32], Some(I32)), vec![(1, I32)], vec![
+            LocalGet(0), Block(B::Empty), Loop(B::Empty), LocalGet(0), I32Const(1), Num(NumOp::I32Add), LocalSet(0),
+            LocalGet(2), I32Const(1), Num(NumOp::I32Add), LocalTee(2), I32Const(3), Num(NumOp::I32LtU), BrIf(0), End, End,
+            LocalGet(0), Num(NumOp::I32Sub), End,
+        ]),
+        ("f6-local-on-stack-set-skipped-by-branch", t(vec![I32, I32], Some(I32)), vec![], vec![
+            LocalGet(0), Block(B::Empty), LocalGet(1), BrIf(0), I32Const(5), LocalSet(0), End, LocalGet(0), Num(NumOp::I32Sub), End,
+        ]),
+        ("f6b-local-on-stack-set-in-if", t(vec![I32, I32], Some(I32)), vec![], vec![
+            LocalGet(0), LocalGet(1), If(B::Empty), I32Const(5), LocalSet(0), End, LocalGet(0), Num(NumOp::I32Sub), End,
+        ]),
+        ("f6c-local-on-stack-tee-in-else", t(vec![I64, I32], Some(I64)), vec![], vec![
+            LocalGet(0), LocalGet(1), If(B::Val(I64)), I64Const(1), Else, I64Const(9), LocalTee(0), End, Num(NumOp::I64Add),
+            LocalGet(0), Num(NumOp::I64Add), End,
+        ]),
+        ("f6d-local-cond-of-if", t(vec![I32, I32], Some(I32)), vec![], vec![
+            LocalGet(1), LocalGet(0), If(B::Empty), I32Const(5), LocalSet(1), I32Const(0), LocalSet(0), End, LocalGet(0), Num(NumOp::I32Add), End,
+        ]),
+    ]
+}
+
+fn t_regress(data: &[u8], ctx: &mut Ctx) -> CheckResult {
+    let mut u = Unstructured::new(data);
+    let progs = regress_programs();
+    let i = g::idx(&mut u, progs.len());
+    let (name, ty, locals, body) = progs[i].clone();
+    let mut module = Module::default();
+    module.types.push(ty.clone());
+    module.funcs.push(Func { ty: 0, locals, body });
+    module.exports.push(Export { name: "f0".into(), kind: ExportKind::Func(0) });
+    add_global_digests(&mut module);
+    let args = gen_args(&mut u, &ty);
+    ctx.class(name);
+    let c = Case { vcfg: if g::boolean(&mut u) { VCfg::V1 } else { VCfg::V0 }, module, func: 0, args };
+    ctx.nontrivial(&(i, c.args.clone()));
+    check_case(&c, ctx)
+}
+
+pub fn property() -> Property {
+    Property {
+        id: "C01",
+        rule: "Typed generator (wasmgen) builds valid-by-construction modules (1-4 functions, optional memory/table/globals/host imports) from the choice sequence; one export and boundary-value arguments are run on the engine under {V0,V1} x {no metering, cost V0, cost V1} and compared with an independent reference interpreter: result, trap/no-trap, final memory byte-for-byte, host call sequence, and final globals (through a digest wrapper function). Non-trivial = the reference execution took both a taken and a not-taken br_if, or a carried-value branch, or a call, or a loop back-edge; distinct by (module, export, args, config).",
+        assumptions: &[
+            "agreement is with the harness's reading of the WebAssembly 1.0 integer semantics (wasmgen::interp); disagreements are triaged against the spec text",
+            "floats are outside the engine (rejected by the parser) and outside the generator",
+            "reference executions exceeding 200k steps are skipped (counted as ref-out-of-fuel)",
+        ],
+        targets: vec![
+            Target::new("diff", t_diff).len(64, 2048).cases(60_000, 4_000_000).floors(&[
+                ("brif-both", 0.05),
+                ("carried-branch", 0.05),
+                ("call", 0.05),
+                ("has-dead-code", 0.05),
+            ]),
+            Target::new("diff-small", t_diff_small).len(16, 256).cases(60_000, 4_000_000),
+            Target::new("regress", t_regress).len(4, 32).cases(4_000, 100_000),
+        ],
+    }
+}
